@@ -1129,7 +1129,8 @@ class Frame:
             assign = {a: (idx >> i) & 1 for i, a in enumerate(atoms)}
             memo = {}
             env_i = {k: (snapshot(v, memo) if k in touched else v) for k, v in base_env.items()}
-            saved = I.st.lin.copy()
+            saved = I.st.lin          # never mutated: the case works on a copy (an enclosing case split holds `saved` too)
+            I.st.lin = saved.copy()
             for a_, v_ in assign.items():
                 I.st.lin.add(F(1 << a_, v_))
             self.env = env_i
@@ -1749,9 +1750,15 @@ class Frame:
                 if all(self.I.decide(self.ev(c), "comp-if") for c in g.ifs):
                     rec(i + 1)
 
-        saved = dict(self.env)
-        rec(0)
-        self.env = saved
+        env = self.env
+        saved = dict(env)
+        try:
+            rec(0)
+        finally:
+            # restore IN PLACE: the case splitter identifies per-case environments by object identity
+            env.clear()
+            env.update(saved)
+            self.env = env
 
     def ev_ListComp(self, n):
         out = []
